@@ -135,16 +135,6 @@ Theorem C10_fallback :
 Proof. exact (conj collisions_exact (conj collisions_value (conj collisions_rev_value (conj collision_names english_booleans_elsewhere)))). Qed.
 Print Assumptions C10_fallback.
 
-(* the rename loop of update_defined_name re-parses the stored English formulas with the ACTIVE
-   language's tables (what is left of finding F67 after commit 9f60d5e repaired rename_sheet_by_index
-   and duplicate_sheet): read with the French tables, the stored text of TRIM("x") is MIRR("x") *)
-Theorem C10_rename_name_reparse_refuted :
-  let e := EFun 137 [EStr [120]] in
-  image Persist.m_rc1 (names_of 0) Example.env1 e = true /\
-  parse Persist.m_rc1 (names_of 3) Example.env1 (print Persist.m_rc1 (names_of 0) e) = Some (EFun 222 [EStr [120]], []).
-Proof. exact rename_name_reparse_refuted. Qed.
-Print Assumptions C10_rename_name_reparse_refuted.
-
 (* non-vacuity: =SUM(1.5,A1)&IF(TRUE,"x") typed in English at C3 satisfies every premise of C10_cross
    for German in a comma-decimal locale; there are 5 languages and 6 locales *)
 Example C10_nonvacuous :
